@@ -399,3 +399,38 @@ theorem attachL_repr (h h' : Heap) (p k : Nat) (lf : T) (g : List T → List T)
 end
 
 end DendroModel.C03.HeapAux
+
+namespace DendroModel.C03.HeapAux
+open DendroModel DendroModel.C03
+
+/- in a represented heap the child lists of the tree's nodes name nodes of the tree only -/
+mutual
+theorem ch_sub_ids (h : Heap) : ∀ (q : Option Nat) (t : T), Repr h q t → ∀ p ∈ ids t, ∀ k ∈ h.ch p, k ∈ ids t
+  | q, .node j tx ln lb cs, hr, p, hp, k, hk => by
+      simp only [Repr] at hr
+      simp only [ids, List.mem_cons] at hp ⊢
+      rcases hp with rfl | hp
+      · right; rw [hr.2.1] at hk; exact map_id_sub_idsL cs k hk
+      · right; exact chL_sub_ids h (some j) cs hr.2.2 p hp k hk
+theorem chL_sub_ids (h : Heap) : ∀ (q : Option Nat) (cs : List T), ReprL h q cs → ∀ p ∈ idsL cs, ∀ k ∈ h.ch p, k ∈ idsL cs
+  | _, [], _, p, hp, _, _ => by simp [idsL] at hp
+  | q, c :: cs, hr, p, hp, k, hk => by
+      simp only [ReprL] at hr
+      simp only [idsL, List.mem_append] at hp ⊢
+      rcases hp with hp | hp
+      · left; exact ch_sub_ids h q c hr.1 p hp k hk
+      · right; exact chL_sub_ids h q cs hr.2 p hp k hk
+end
+
+/-- the heap built from `t` knows nothing about a node that is not in `t` -/
+theorem ofTree_fresh (t : T) (hw : (ids t).Nodup) (k : Nat) (hk : k ∉ ids t) :
+    (Heap.ofTree none Heap.empty t).ch k = [] ∧ ∀ p, k ∉ (Heap.ofTree none Heap.empty t).ch p := by
+  have ho := ofTree_outside t none Heap.empty k hk
+  refine ⟨by rw [ho.2]; rfl, ?_⟩
+  intro p hmem
+  by_cases hp : p ∈ ids t
+  · exact hk (ch_sub_ids _ none t (ofTree_repr_aux t none Heap.empty hw) p hp k hmem)
+  · have := ofTree_outside t none Heap.empty p hp
+    rw [this.2] at hmem; simp [Heap.empty] at hmem
+
+end DendroModel.C03.HeapAux
